@@ -121,3 +121,42 @@ func verifC17Dial() {
 	}
 	_ = netip.Addr{}
 }
+
+// verifC17ResolverPath: the same rules when the target list comes from a real
+// Resolver (DoH seam) and a comma-separated address list: the TLS server name
+// is the host part of the address the caller named, never an alias or target.
+func verifC17ResolverPath() {
+	dns.VerifHook_DoH = func(ctx context.Context, msg *dns.Message, URL string) (*dns.Message, error) {
+		d, _ := dns.DecodeMessage(msg.Bytes())
+		q := d.Question[0]
+		m := &dns.Message{QR: 1}
+		switch {
+		case q.Type == 65 && q.Name == "h1.example":
+			m.Answer = append(m.Answer, dns.RR{Name: q.Name, Type: 65, Class: 1, TTL: 60, Data: dns.HTTPS{Priority: 0, Target: "alias.example"}})
+		case q.Type == 65 && q.Name == "alias.example":
+			m.Answer = append(m.Answer, dns.RR{Name: q.Name, Type: 65, Class: 1, TTL: 60, Data: dns.HTTPS{Priority: 1, Target: "svc.example", ECH: []byte{0xD1}}})
+		case q.Type == 1:
+			m.Answer = append(m.Answer, dns.RR{Name: q.Name, Type: 1, Class: 1, TTL: 60, Data: net.IP{10, 0, 0, byte(len(q.Name))}})
+		}
+		return m, nil
+	}
+	requireECH := vBool()
+	var hosts []string
+	d := &Dialer[*vDialConn]{RequireECH: requireECH, Resolver: &Resolver{}, MaxConcurrency: 1}
+	d.DialFunc = func(ctx context.Context, network, addr string, c *tls.Config) (*vDialConn, error) {
+		hosts = append(hosts, c.ServerName)
+		vAssert(c.ServerName == "h1.example" || c.ServerName == "h2.example", "TLS server name is a host the caller named, never a DNS alias or target")
+		vAssert(!requireECH || c.EncryptedClientHelloConfigList != nil, "RequireECH: no attempt without an ECH config list")
+		if c.ServerName == "h1.example" {
+			vAssert(vBytesEq(c.EncryptedClientHelloConfigList, []byte{0xD1}), "ECH list of the record that produced the address")
+		}
+		if vBool() {
+			return nil, errVTransport
+		}
+		return &vDialConn{addr: addr}, nil
+	}
+	addr := []string{"h1.example:443", "h1.example:443, h2.example:8443", "h2.example:443,h1.example"}[vInt(0, 2)]
+	conn, err := d.Dial(context.Background(), "tcp", addr, nil)
+	vAssert((conn != nil) == (err == nil), "a connection or an error")
+	vReach("resolver-path")
+}
